@@ -2,7 +2,7 @@
 import os, subprocess
 from vf import common
 
-def transform_batch(binary, jobs, outdir, url=None):
+def transform_batch(binary, jobs, outdir, url=None, timeout=None):
     """jobs: [(id, type, xml)] -> {id: ('ok'|'fail'|'crash', info)}; outputs in outdir/<id>.<type>[.ann.xml]"""
     res = {}
     pending = list(jobs)
@@ -11,7 +11,7 @@ def transform_batch(binary, jobs, outdir, url=None):
         for jid, typ, xml in pending:
             xb = xml.encode('utf-8')
             inp += ('JOB %s %s %d %s\n' % (jid, typ, len(xb), url or '')).encode() + xb + b'\n'
-        rc, out, err, to = common.run_proc([binary, outdir], inp=inp, timeout=60 + 3 * len(pending), text=False)
+        rc, out, err, to = common.run_proc([binary, outdir], inp=inp, timeout=timeout or (60 + 3 * len(pending)), text=False)
         out = (out or b'').decode('utf-8', 'replace'); err = (err or b'').decode('utf-8', 'replace')
         cur = None; done = set()
         for ln in out.split('\n'):
